@@ -209,6 +209,7 @@ def generate(ctx):
         for needle in (b'a', b''):
             ctx.add('traverse_check_string %s %s' % (gen.hexarg(m), gen.hexarg(needle)), kind='malformed')
     keys_malformed_stream(ctx, ds)
+    value_api_stream(ctx, ds)
 
 
 def alloc_safe(m):
@@ -272,7 +273,72 @@ def keys_malformed_stream(ctx, ds):
                 ctx.add('exists_any_keys %s %s' % (h, gen.hexlist(ks)), kind='malformed')
 
 
+def value_api_stream(ctx, ds):
+    """the tree-level helpers of value.rs (is_* / as_* / array_length / object_keys / eq_variant / get_by_name_ignore_case on a
+    `Value`, model coq/ValueApi.v): every document of the corpus as a tree (op value_api prints all the views in one line), the
+    case-insensitive lookup with the key variants of the document, eq_variant against documents of every variant.  Diffed against
+    the model; and, on the implementation alone, compared with the byte-level accessor on the encoding (Props/ValueApi.v says the
+    two agree: ValueApi_array_length, ValueApi_object_keys, ValueApi_get_by_name_ignore_case)."""
+    r = ctx.rng
+    ctx.value_api = []
+    one_of_each = [('n',), ('b', True), ('s', b'x'), ('u', 1), ('i', -1), ('d', gen.float_to_bits(0.5)), ('a', []), ('o', [])]
+    for v in ds:
+        if gen.nodes(v) > 700:
+            continue
+        t = gen.vtext(v)
+        e = gen.hexarg(gen.enc(v))
+        ids = (ctx.add('value_api %s' % t).id, ctx.add('array_length %s' % e).id, ctx.add('object_keys %s' % e).id)
+        ctx.value_api.append(('views', v, ids))
+        for w in one_of_each[:3] + [r.choice(one_of_each), r.choice(ds[:60])]:
+            ctx.add('value_eq_variant %s %s' % (t, gen.vtext(w)))
+        if v[0] == 'o' or r.random() < 0.05:
+            for k in common.key_variants(ctx, v)[:8]:
+                if not is_utf8(k):
+                    continue
+                ids = (ctx.add('value_get_ci %s %s' % (t, gen.hexarg(k))).id, ctx.add('get_by_name %s %s 1' % (e, gen.hexarg(k))).id)
+                ctx.value_api.append(('ci', v, ids))
+    # several keys that differ in case only: the first in key order wins, an exact match wins over all
+    for keys in ([b'KEY', b'Key', b'key'], [b'AB', b'Ab', b'aB'], [b'\xc3\x89a', b'\xc3\xa9A'], [b'a', b'b']):
+        v = ('o', sorted((k, ('u', i)) for i, k in enumerate(keys)))
+        for name in keys + [keys[0].lower(), keys[0].upper(), keys[-1].swapcase(), b'kEY', b'', b'\xc3\xa9a']:
+            ids = (ctx.add('value_get_ci %s %s' % (gen.vtext(v), gen.hexarg(name))).id,
+                   ctx.add('get_by_name %s %s 1' % (gen.hexarg(gen.enc(v)), gen.hexarg(name))).id)
+            ctx.value_api.append(('ci', v, ids))
+
+
+def judge_value_api(ctx):
+    for kind, v, ids in getattr(ctx, 'value_api', []):
+        outs = [ctx.impl.get(i, 'missing') for i in ids]
+        if kind == 'views':
+            va, al, ok = outs
+            f = dict(x.split('=', 1) for x in va.split(' ')[1:]) if va.startswith('ok ') else {}
+            want_al = 'ok =' + f.get('alen', '?')
+            if al != want_al:
+                ctx.violate('Value::array_length differs from array_length on the encoding', case=gen.vtext(v)[:300], expected=al, observed=va[:300])
+            if f.get('keys') == 'none':
+                want_ok = 'ok =none'
+            else:
+                try:
+                    want_ok = 'ok ' + gen.hexarg(gen.enc(gen.parse_vtext(f.get('keys', ''))))
+                except Exception:
+                    want_ok = '?'
+            if ok != want_ok:
+                ctx.violate('Value::object_keys differs from object_keys on the encoding', case=gen.vtext(v)[:300], expected=ok[:300], observed=va[:300])
+            ctx.count('value_api_vs_bytes', 'views')
+        else:
+            ci, gb = outs
+            if ci == 'ok =none' or not ci.startswith('ok '):
+                want = ci
+            else:
+                want = 'ok ' + gen.hexarg(gen.enc(gen.parse_vtext(ci[3:])))
+            if gb != want:
+                ctx.violate('Value::get_by_name_ignore_case differs from get_by_name(.., true) on the encoding', case=gen.vtext(v)[:300],
+                            expected=gb[:300], observed=ci[:300])
+            ctx.count('value_api_vs_bytes', 'get_by_name_ignore_case')
+
+
 def judge(ctx):
+    judge_value_api(ctx)
     # independent tree oracles for the two most offset-sensitive walkers; everything else is judged by the model diff
     for c in ctx.cases:
         m = c.meta
